@@ -216,3 +216,48 @@ func TestD14ReadFromCap(t *testing.T) {
 		t.Fatalf("err = %v", err)
 	}
 }
+
+// D15: bucketParser.Parse stops scanning a bucket at an entry that looks empty
+// ({pos 0, val 0}); the genuine entry of position 0 holding zero bytes looks the
+// same, hides the younger entries behind it, and a block inside a run of one
+// byte then carries two literals instead of at most one.
+func TestD15BUPRunLiterals(t *testing.T) {
+	cfg := BUPConfig{BufferSize: 256, WindowSize: 256, BlockSize: 32, InputLen: 3, HashBits: 1, BucketSize: 2}
+	h := func(a, b, c byte) uint32 {
+		x := uint64(a) | uint64(b)<<8 | uint64(c)<<16
+		return hashValue(x, 63)
+	}
+	found := false
+	for f1 := 1; f1 < 256 && !found; f1++ {
+		for f2 := 1; f2 < 256 && !found; f2++ {
+			for c := 1; c < 256 && !found; c++ {
+				F1, F2, C := byte(f1), byte(f2), byte(c)
+				if F1 == C || F2 == C || h(0, 0, F1) != 1 || h(0, F1, F2) != 1 || h(F1, F2, C) != 1 || h(F2, C, C) != 1 || h(C, C, C) != 0 {
+					continue
+				}
+				found = true
+				p, err := cfg.NewParser()
+				if err != nil {
+					t.Fatal(err)
+				}
+				data := append([]byte{0, 0, 0, F1, F2}, bytes.Repeat([]byte{C}, 40)...)
+				p.Write(data[:5])
+				var blk Block
+				if n, err := p.Parse(&blk, 0); n != 5 || err != nil {
+					t.Fatal(n, err)
+				}
+				p.Write(data[5:])
+				n, err := p.Parse(&blk, 0)
+				if n != 32 || err != nil {
+					t.Fatal(n, err)
+				}
+				if len(blk.Literals) > 1 {
+					t.Fatalf("block of 32 bytes inside a run of %#x carries %d literals: %+v", C, len(blk.Literals), blk.Sequences)
+				}
+			}
+		}
+	}
+	if !found {
+		t.Skip("no suitable bytes found")
+	}
+}
